@@ -204,6 +204,24 @@ class SourceIndex:
             for fn in sorted(filenames):
                 if fn.endswith(".py"):
                     self._load(os.path.join(dirpath, fn))
+        if self.normalize:
+            from sa.normalize import normalize_module, recover_function_renames
+
+            glog: list[str] = []
+            try:
+                recover_function_renames({n: m.tree for n, m in self.modules.items()}, glog)
+            except RecursionError:  # pragma: no cover
+                pass
+            if glog:
+                self.normalization_log["<package>"] = glog
+            for name, m in self.modules.items():
+                log: list[str] = []
+                try:
+                    m.tree = normalize_module(m.tree, name, log)
+                except RecursionError:  # pragma: no cover
+                    m.tree = ast.parse(m.source, filename=m.path)
+                if log:
+                    self.normalization_log[m.relpath] = log
         for m in self.modules.values():
             self._collect(m)
         for c in list(self.classes.values()):
@@ -228,16 +246,6 @@ class SourceIndex:
             tree = ast.parse(src, filename=path)
         except SyntaxError as e:
             raise AnalysisError(f"{rel} does not parse: {e}") from e
-        if self.normalize:
-            from sa.normalize import normalize_module
-
-            log: list[str] = []
-            try:
-                tree = normalize_module(tree, name, log)
-            except RecursionError:  # pragma: no cover
-                tree = ast.parse(src, filename=path)
-            if log:
-                self.normalization_log[rel] = log
         self.modules[name] = Module(
             name=name, path=path, relpath=rel, source=src, tree=tree, is_package=is_pkg
         )
